@@ -12,8 +12,16 @@
          - code 2 (known finding C01-K1, DESIGN §0 F1) when EVERY lost entry was held, just
            before the Install, by fewer than WriteQuorum of the voters that answered its recovery
            probe (the installing node plus every voter neither down nor dropped by the call),
-         - code 1 otherwise (truncation although >= WriteQuorum holders answered).
-   Entries reported lost by a code-2 step are moved to a separate list, so that the aftermath of the
+         - code 3 (known finding C01-K2) when every lost entry is either of the K1 kind or was
+           held by fewer than WriteQuorum of the STABLE voters (those that answered the frontier round
+           AND every identity page: frontier responders minus the voters whose page replies the call
+           loses) while the unchanged post-page guard of recoverQuorumPrefix is satisfied by the observed
+           pre-install states: at least WriteQuorum stable voters, and the WriteQuorum-th highest log end
+           and the WriteQuorum-th highest persisted watermark among the stable voters equal those among
+           the frontier responders; at least one lost entry is of this second kind,
+         - code 1 otherwise (truncation although >= WriteQuorum holders answered every round, or
+           although the guard is false on the observed states: the install had to fail closed).
+   Entries reported lost by a code-2/3 step are moved to a separate list, so that the aftermath of the
    known defect is not reported as something else: the index may be reused, and a deposed leader may
    still replay the old receipt from its retained-command cache (a receipt that only covers entries
    acknowledged before, live or lost, is a replay: no new quorum is demanded for it). *)
@@ -64,11 +72,21 @@ Definition c01_step (cfg : qconfig) (st : c01_state) (prev : list (N * robs))
       match lost with
       | [] => (st, 0)
       | _ =>
-          let responders := node :: filter (fun w => negb (w =? node) && negb (memN w (ca_down st)) &&
-                                                     negb (memN w (fl_drop f))) vs in
-          let k1 := forallb (fun p => countb (fun w => holds prev w p) responders <? cf_quorum cfg) lost in
-          (C01State (filter (fun p => holds full node p) (ca_acked st)) (ca_down st) (if k1 then lost ++ ca_lost st else ca_lost st),
-           if k1 then 2 else 1)
+          let q := cf_quorum cfg in
+          (* voters whose answer to the FRONTIER round arrived / to every round (identity pages too) *)
+          let frontier := node :: filter (fun w => negb (w =? node) && negb (memN w (ca_down st)) &&
+                                                   negb (memN w (fl_drop f))) vs in
+          let stable := filter (fun w => (w =? node) || negb (memN w (fl_pdrop f))) frontier in
+          (* the post-page guard of recoverQuorumPrefix on the observed pre-install states *)
+          let qth (sel : robs -> N) (ws : list N) := quorumFrontier (map (fun w => sel (get_robs prev w)) ws) q in
+          let guard := (q <=? lenN stable) && (qth ro_hw stable =? qth ro_hw frontier) &&
+                       (qth ro_leo stable =? qth ro_leo frontier) in
+          let k1p (p : N * N) := countb (fun w => holds prev w p) frontier <? q in
+          let k2p (p : N * N) := guard && (countb (fun w => holds prev w p) stable <? q) in
+          let explained := forallb (fun p => k1p p || k2p p) lost in
+          (C01State (filter (fun p => holds full node p) (ca_acked st)) (ca_down st)
+                    (if explained then lost ++ ca_lost st else ca_lost st),
+           if negb explained then 1 else if forallb k1p lost then 2 else 3)
       end
   | ODown node, _ => (C01State (ca_acked st) (node :: filter (fun v => negb (v =? node)) (ca_down st)) (ca_lost st), 0)
   | OUp node, _ => (C01State (ca_acked st) (filter (fun v => negb (v =? node)) (ca_down st)) (ca_lost st), 0)
